@@ -20,6 +20,14 @@ func TestVerifStoreRace(t *testing.T) {
 		t.Skip("VERIF_STRESS not set")
 	}
 	rounds := vEnvInt("VERIF_RACE_ROUNDS", 20000)
+	// the two sides of a round take the shard lock and the expiry-index lock: an inverted lock order shows as a round
+	// that never ends - report it instead of waiting for the test binary's timeout
+	budget := time.Duration(90+rounds/1000) * time.Second
+	watchdog := time.AfterFunc(budget, func() {
+		fmt.Printf("stress hang: the store-level race harness did not finish within %v: a round never ended (lock order between a store shard and the expiry index?)\n", budget)
+		os.Exit(3)
+	})
+	defer watchdog.Stop()
 	sm := newShardedMap[uint64]()
 	// two long-lived goroutines spinning on the round number, so that both operations start within nanoseconds
 	var round atomic.Int64
